@@ -192,16 +192,49 @@ func rulePlumbing(c *Ctx, rule string) {
 					got[fname] = fmt.Sprintf("#%d", ex.Index)
 				}
 			}
+			// parse_amount answers one record: its like-named field
+			var rec ssa.Value
+			recField := ""
+			switch x := st.Val.(type) {
+			case *ssa.Field:
+				rec, recField = x.X, fieldName(x.X.Type(), x.Field)
+			case *ssa.UnOp:
+				if src, ok := x.X.(*ssa.FieldAddr); ok {
+					recField = fieldName(deref(src.X.Type()), src.Field)
+					if a, ok := src.X.(*ssa.Alloc); ok {
+						for _, ref := range *a.Referrers() {
+							if s2, ok := ref.(*ssa.Store); ok && s2.Addr == ssa.Value(a) {
+								rec = s2.Val
+							}
+						}
+					}
+				}
+			}
+			if ex, ok := rec.(*ssa.Extract); ok && ex.Index == 0 {
+				if call, ok := ex.Tuple.(*ssa.Call); ok && call.Call.StaticCallee() == pa {
+					got[fname] = "field " + strings.ToLower(recField)
+				}
+			}
 		})
 		var bad []string
+		byField := false
 		for i, f := range fields {
+			if got[f] == "field "+strings.ToLower(f) {
+				byField = true
+				continue
+			}
 			if got[f] != fmt.Sprintf("#%d", i) {
 				bad = append(bad, fmt.Sprintf("%s <- result %s (expected #%d)", f, got[f], i))
 			}
 		}
-		if len(bad) == 0 {
+		switch {
+		case len(bad) == 0 && byField:
+			ob.OKnt("All, Skip, Take, Last <- the like-named fields of the record parse_amount answers")
+		case len(bad) == 0:
 			ob.OKnt("All, Skip, Take, Last <- results #0..#3 of parse_amount")
-		} else {
+		case len(got) == 0:
+			ob.Und("no result of parse_amount is stored into an AST field in a form this rule reads")
+		default:
 			ob.Bad(strings.Join(bad, "; "))
 		}
 	}
